@@ -45,7 +45,26 @@ func runC18(c *Ctx, r *Report, tier string) {
 		res := c.resolve(ret.Results[0])
 		q := &PathQ{c: c, Fn: cp, CutIn: func(in ssa.Instruction) bool {
 			call, ok := in.(*ssa.Call)
-			return ok && c.calleeName(call.Common()) == "sort.Sort" && c.resolve(call.Call.Args[0]) == res
+			if !ok {
+				return false
+			}
+			if c.calleeName(call.Common()) == "sort.Sort" && c.resolve(call.Call.Args[0]) == res {
+				return true
+			}
+			// sort.Slice(ret, func(i, j) bool { return ret[i].Item < ret[j].Item }) is the same order
+			if n := c.calleeName(call.Common()); (n == "sort.Slice" || n == "sort.SliceStable") && (c.resolve(call.Call.Args[0]) == res || c.term(call.Call.Args[0]) == c.term(res) && strings.HasPrefix(c.term(res), "cell:")) {
+				for _, f := range closureArgs(call) {
+					rets := returnsOf(f)
+					if len(rets) == 1 {
+						t := c.term(rets[0].Results[0])
+						t = strings.ReplaceAll(t, "&idx(", "idx(")
+						if strings.HasPrefix(t, "(Completion.Item(idx(") && strings.Contains(t, ", P0)) < Completion.Item(idx(") && strings.HasSuffix(t, ", P1)))") {
+							return true
+						}
+					}
+				}
+			}
+			return false
 		}, CutEdge: func(b *ssa.BasicBlock, si int) bool {
 			// a list of at most one item is sorted already
 			return atMostOneEdge(b, si, func(v ssa.Value) bool { return c.resolve(v) == res })
